@@ -316,3 +316,177 @@ class StoreForPeriodicReport(FnCheck):
             z3.ForAll([j], z3.Implies(z3.And(0 <= j, j < z3.Length(self.useq)), stored[j] == self.COPY(self.useq[j])))))
         ex.oblige(st, 'caller_list_untouched', z3.Select(st.get_arr('L'), self.updates.e) == self.useq)
         ex.oblige(st, 'stored_under_reports_lock', z3.BoolVal(any(k.endswith('_periodic_reports_lock') for k in st.ghost.get('locks_at_append', ()))))
+
+
+class _EntityUpdate(FnCheck):
+    """entity.update(): the entity is refreshed from PRIVATE COPIES of the stored objects (update_from_other_container
+    copies members one level deep only, so its argument must already be a copy made with mk_copy)."""
+    prop = 'C03'
+    tag = 'S'
+    opaque_ok = True
+    LOGGED = ('mk_copy', 'update_from_other_container', 'get_one', 'get', 'pop', 'items', 'values', 'keys')
+    inline = (f'{MB}:_EntityBase.handle', f'{MB}:_EntityBase.update')
+
+    def setup(self, b):
+        self.descr = b.obj('entity.descriptor', Handle=b.str('handle'))
+        self.state = b.obj('entity.state')
+        self.states = b.obj('entity.states')
+        b.st.assume(z3.Select(b.st.get_arr('C'), self.states.e) == b.ex.ctx.builtin_class_ids['dict'])
+        b.st.assume(z3.Select(b.st.get_arr('DN'), self.states.e) >= 0)
+        self.o = b.obj('self', cls=self.cls, descriptor=self.descr, state=self.state, states=self.states)
+        b.distinct(self.o, self.descr, self.state, self.states)
+        b.st.ghost['calls'] = ()
+        return self.o, [], {}
+
+    def hooks(self, ex):
+        chk = self
+
+        class H:
+            tracked_names = chk.LOGGED
+
+            @staticmethod
+            def on_loop_havoc(ex_, st, node):
+                st.ghost['calls'] += (('#loop', ex_.loop_ordinal(node)),)
+
+            @staticmethod
+            def on_call(ex_, st, fv, keys, args, kwargs, node):
+                name = getattr(fv, 'name', None) or (fv.fn.name if fv.t == 'repo' else None)
+                if name not in chk.LOGGED:
+                    return None
+                if fv.t == 'method' and fv.recv.kind == 'ref' and fv.recv.cls in ('dict', 'list'):
+                    return None     # plain container operations of the entity's own dict are modelled as such
+                recv = fv.recv if fv.t == 'method' else getattr(fv, 'self_v', None)
+                rb = st.box(recv) if recv is not None else None
+                if name == 'mk_copy':
+                    c = st.alloc('Copy')
+                    st.ghost['copies'] = st.ghost.get('copies', ()) + ((c.e, rb),)
+                    st.ghost['calls'] += ((name, rb, ()),)
+                    return [(st, c)]
+                if name in ('items', 'values', 'keys', 'pop'):
+                    if fv.t == 'method' and fv.recv.kind == 'ref' and fv.recv.cls is not None:
+                        return None
+                    # view of the opaque dict of stored states: some sequence, nothing is modified
+                    r = st.alloc('list')
+                    st.set_list_seq(r, fresh(SeqVal, 'view'))
+                    return [(st, r)]
+                st.ghost['calls'] += ((name, rb, tuple(st.box(a) for a in args)),)
+                if name == 'get_one':
+                    r = st.alloc('Stored')
+                    st.ghost['stored'] = st.ghost.get('stored', ()) + (r.e,)
+                    return [(st, r)]
+                if name == 'get':
+                    if rb is not None and z3.is_true(z3.simplify(rb == Val.ref(chk.states.e))):
+                        return None
+                    if len(args) == 2:      # index lookup .get(handle, []): the list of stored states
+                        r = st.alloc('list')
+                        st.set_list_seq(r, fresh(SeqVal, 'stored_states'))
+                        return [(st, r)]
+                    # dict of stored states by handle: a stored state or None
+                    absent = st.fork()
+                    r = st.alloc('Stored')
+                    st.ghost['stored'] = st.ghost.get('stored', ()) + (r.e,)
+                    return [(absent, NONE), (st, r)]
+                return [(st, NONE)]
+
+            @staticmethod
+            def on_call_value(ex_, st, f, args, kwargs, node):
+                # method calls on values of unknown type (elements of opaque containers)
+                import ast as _ast
+                if not isinstance(node.func, _ast.Attribute) or node.func.attr not in ('mk_copy', 'update_from_other_container', 'get'):
+                    return None
+                recv_node = node.func.value
+                outs = []
+                for s2, rv in ex_.ev(recv_node, st):
+                    if isinstance(rv, Raise):
+                        continue
+                    rb = s2.box(rv)
+                    if node.func.attr == 'mk_copy':
+                        c = s2.alloc('Copy')
+                        s2.ghost['copies'] = s2.ghost.get('copies', ()) + ((c.e, rb),)
+                        s2.ghost['calls'] += (('mk_copy', rb, ()),)
+                        outs.append((s2, c))
+                    elif node.func.attr == 'get':
+                        # lookup in the (opaque) dict of stored states: a stored state or None
+                        absent = s2.fork()
+                        outs.append((absent, NONE))
+                        r = s2.alloc('Stored')
+                        s2.ghost['stored'] = s2.ghost.get('stored', ()) + (r.e,)
+                        outs.append((s2, r))
+                    else:
+                        s2.ghost['calls'] += (('update_from_other_container', rb, tuple(s2.box(a) for a in args)),)
+                        outs.append((s2, NONE))
+                return outs or None
+        return H
+
+    def check_updates(self, ex, st, calls, ob):
+        """every update_from_other_container in `calls` gets a copy made by mk_copy in the same call sequence."""
+        copies = [c for c, _ in st.ghost.get('copies', ())]
+        for c in calls:
+            if c[0] != 'update_from_other_container':
+                continue
+            ob('refreshed_from_a_private_copy_never_from_the_stored_object',
+               z3.Or(*[c[2][0] == Val.ref(cp) for cp in copies]) if copies else z3.BoolVal(False))
+
+
+def _mk_entity_update(idn, cls, doc, loops=None):
+    def post(self, ex, st0, st, outcome, b):
+        if outcome[0] == 'exc':
+            return
+        calls = [c for c in st.ghost['calls'] if c[0] != '#loop']
+        ob = lambda n, f: ex.oblige(st, n, f)   # noqa: E731
+        self.check_updates(ex, st, calls, ob)
+        n_upd = sum(1 for c in calls if c[0] == 'update_from_other_container')
+        if self.min_updates:
+            ob('entity_members_are_refreshed', z3.BoolVal(n_upd >= self.min_updates))
+    ns = {'id': f'C03.entity_update.{idn}', 'cls': (MB, cls), 'target': f'{MB}:{cls}.update', 'doc': doc, 'post': post,
+          'min_updates': 1}
+    if loops:
+        ns['loops'] = loops
+    return register(type('EntityUpdate_' + idn, (_EntityUpdate,), ns))
+
+
+_mk_entity_update('base', '_EntityBase', '_EntityBase.update(): the descriptor of the entity is refreshed from a private copy '
+                  '(mk_copy) of the stored descriptor, never from the stored object itself')
+_mk_entity_update('single_state', 'Entity', 'Entity.update(): descriptor and state are refreshed from private copies of the '
+                  'stored descriptor / the stored state looked up by the descriptor handle')
+
+
+def _multi_loops(self, ex):
+    def refresh(ex_, st, env):
+        if env['_phase'] != 'preserve':
+            return z3.BoolVal(True)
+        calls = st.ghost['calls']
+        heads = [i for i, c in enumerate(calls) if c == ('#loop', 0)]
+        own = [c for c in calls[heads[-1] + 1:] if c[0] != '#loop'] if heads else []
+        self.check_updates(ex_, st, own, lambda n, f: ex_.oblige(st, 'state.' + n, f, kind='loop'))
+        return z3.BoolVal(True)
+
+    def add(ex_, st, env):
+        if env['_phase'] != 'preserve':
+            return z3.BoolVal(True)
+        # a state that is new to the entity is inserted as a copy of the stored one
+        d = self.states
+        copies = [c for c, _ in st.ghost.get('copies', ())]
+        dv = z3.Select(st.get_arr('DV'), d.e)
+        dk = z3.Select(st.get_arr('DK'), d.e)
+        dv0 = z3.Select(env['_entry'].get_arr('DV'), d.e)
+        k = z3.Const('k!eu', Val)
+        new_vals_are_copies = z3.ForAll([k], z3.Implies(z3.And(z3.Select(dk, k), z3.Select(dv, k) != z3.Select(dv0, k)),
+                                                         z3.Or(*[z3.Select(dv, k) == Val.ref(c) for c in copies]) if copies else z3.BoolVal(False)))
+        ex_.oblige(st, 'state.new_states_enter_the_entity_as_private_copies', new_vals_are_copies, kind='loop')
+        return z3.BoolVal(True)
+    return {0: LoopSpec(inv=refresh, havoc_heap=[]), 1: LoopSpec(inv=add, havoc_heap=[])}
+
+
+_mk_entity_update('multi_state', 'MultiStateEntity', 'MultiStateEntity.update(): the descriptor and every state the entity '
+                  'already holds are refreshed from private copies; states that are new in the MDIB enter the entity as '
+                  'private copies (arbitrary iteration of both loops)', loops=_multi_loops)
+
+
+from contracts import C02 as _c02   # noqa: E402
+
+
+@register
+class DescriptorCommitCopiesState(_c02.UpdateCorrespondingStateNotInTx):
+    id = 'C03.descriptor_commit_never_writes_the_stored_state'
+    prop = 'C03'
